@@ -550,5 +550,6 @@ def _helpers_of_response_module(P):
     base = D.inline_inherent(("scpi::parser::response::",))
 
     def pred(n, r):
-        return base(n, r)
+        # (+ the derived / hand-written Default of the module's own types: `state: Default::default()`)
+        return base(n, r) or (r.startswith("<") and "parser::response::" in r.split(" as ")[0] and r.endswith(" as core::default::Default>::default"))
     return pred
